@@ -126,3 +126,11 @@ Proof. exact GroupMatcher.group_reject_genuine. Qed.
 
 Print Assumptions C17_matcher_sound.
 Print Assumptions C17_matcher_rejections_genuine.
+
+(* Tie to the source: the Go functions the model transcribes still contain exactly the synchronisation operations
+   (select arms, channel operations, goroutine starts, timer/context/sync calls) the model accounts for.
+   Generated/Census.v is re-extracted from the Go source on every run (tools/gofacts/census.go). *)
+From Juniper Require Translated.CensusC17.
+Theorem C17_source_census : Translated.CensusC17.census_expected_C17.
+Proof. exact Translated.CensusC17.census_C17_ok. Qed.
+Print Assumptions C17_source_census.
